@@ -8,6 +8,8 @@ from concurrent.futures import ThreadPoolExecutor
 from vcheck import Check, run, BIN
 
 MODULES = ("ap", "gd", "ip", "lfq", "lhq", "ll", "llp", "ltq", "pbq", "rnd", "spq")
+# development knob (mutation testing): VERIF_SCHED_ONLY=lfq,ltq restricts the generators to these modules
+ONLY = tuple(m for m in os.environ.get("VERIF_SCHED_ONLY", "").split(",") if m)
 HB = ("lfq", "lhq", "pbq", "ltq")
 
 
@@ -98,6 +100,10 @@ class SchedCheck(Check):
     def mbin(self):
         return os.path.join(BIN, "vm_sched_" + self.id)
 
+    def impl_timeout(self):
+        # per process (one group of cases); a hang (e.g. a cycle in a corrupted list) is treated like a crash
+        return 25 if self.tier == "quick" else 300
+
     # ---- one process per (module, stream count) ---------------------------
     def _groups(self, casefile):
         cases = [l.rstrip("\n") for l in open(casefile) if l.strip() and not l.startswith("#")]
@@ -122,6 +128,7 @@ class SchedCheck(Check):
         topo = None
         todo = list(idxs)
         part = 0
+        crashes = 0
         while todo:
             gf = "%s.%s.%s.impl%d" % (casefile, mod, ns, part)
             part += 1
@@ -141,8 +148,14 @@ class SchedCheck(Check):
             if len(lines) >= len(todo):
                 break
             # the process died inside case todo[len(lines)]: report it, go on after it in a fresh process
-            res[todo[len(lines)]] = "<crash rc=%d: %s>" % (rc, e.strip()[-160:].replace("\n", " "))
+            res[todo[len(lines)]] = "<crash rc=%d%s: %s>" % (rc, " (timeout)" if rc == 124 else "",
+                                                              e.strip()[-160:].replace("\n", " "))
             todo = todo[len(lines) + 1:]
+            crashes += 1
+            if crashes >= 2:
+                for i in todo:
+                    res[i] = "<not run: the process of this group crashed twice>"
+                break
         return topo or "T %s ; ; ; ;" % ns, res
 
     def run_impl(self, casefile, n):
